@@ -5,15 +5,376 @@ F2 strand symmetry = C01-K1..K4 (mirrored windows/slices) + C07-T3/T5/T6 (rc enc
 F3 case = C01-K6 + the 0xDF mask in both encoders (C07-T1/T3), re-evaluated
 F4 content-based compression: every CLI SequenceFile is 'auto'; auto -> _open_auto; gzip magic; seek(0); universal newlines
 F5 parse(): text mode, handed to SeqIO.parse with the file's format; stream closed on error and on exhaustion
+
+F1, F4 and F5 are decided by value flow over the paths of the anchor functions (`sym_paths` below): which value reaches which call
+or return under which condition.  They do not depend on whether a value is bound to a local first, on `if` statement vs
+conditional expression, on guard clauses with early return vs if/elif/else, on the order of mutually exclusive branches, or on
+a literal being named by a module constant.  A construct the rules cannot evaluate (a dispatch table, a truthiness test, a
+test on the whole mode string) is reported as undecided, naming it; a located value that is wrong is a violation.
 """
 import ast
+import copy
+import re
 
-from ..astutil import (u, atoms, guard_map, path_atoms, stmts_in, calls_in, callee, callee_attr, reaching_def, def_value,
-                       PARAM, AMBIGUOUS, get_arg, get_kw, is_none, is_const, raised_name, block_path, names_in)
+from ..astutil import (always_exits, assigned_targets, u, atoms, path_atoms, stmts_in, calls_in, callee, callee_attr, get_arg, get_kw, is_none, is_const, names_in)
 from ..report import Undecided
 from . import c01, c07
 
 SEQ_NAMES = {'seq', 'seqs', 'record', 'records', 'haystack', 'kmer'}
+
+
+# ====================================================================== path-sensitive value flow
+# The F rules (and the C13 rules, which import this) do not match statement shapes: they enumerate the acyclic paths of the
+# anchor function and look at WHAT VALUE reaches a call / return UNDER WHICH CONDITION.  A local that only names a
+# side-effect free expression is replaced by that expression (so `x = E; f(x)`, `f(E)`, an `if` statement and a conditional
+# expression, a guard clause with early return and an if/elif chain all give the same paths); a local bound to the result of a
+# call or to a freshly allocated object becomes a *symbol* (single assignment per path) whose definition is kept in
+# `Path.defs`.  Loops are not unrolled: they are recorded as one event with the environment at loop entry.
+
+PURE_CALLS = {'len', 'isinstance'}          # builtins that may be re-evaluated where the local is used
+_ALLOC = (ast.List, ast.Dict, ast.Set, ast.ListComp, ast.SetComp, ast.DictComp, ast.GeneratorExp, ast.Lambda, ast.Await, ast.Yield,
+          ast.YieldFrom, ast.NamedExpr, ast.Starred)
+MAX_PATHS = 512
+
+
+def _is_simple(e):
+    """Side-effect free, allocation free expression: its value may be substituted for the local that names it."""
+    for n in ast.walk(e):
+        if isinstance(n, _ALLOC):
+            return False
+        if isinstance(n, ast.Call) and not (isinstance(n.func, ast.Name) and n.func.id in PURE_CALLS and not n.keywords):
+            return False
+    return True
+
+
+def is_unknown(e):
+    """Does the expression depend on a value the path enumeration could not follow (assigned in a loop, tuple target ...)?"""
+    return e is not None and any(isinstance(n, ast.Name) and n.id.startswith('?') for n in ast.walk(e))
+
+
+class _Sub(ast.NodeTransformer):
+    def __init__(self, env):
+        self.env = env
+        self.shadow = []
+
+    def visit_Name(self, node):
+        if isinstance(node.ctx, ast.Load) and node.id in self.env and not any(node.id in s for s in self.shadow):
+            return copy.deepcopy(self.env[node.id])
+        return node
+
+    def _scoped(self, node, bound):
+        self.shadow.append(bound)
+        self.generic_visit(node)
+        self.shadow.pop()
+        return node
+
+    def _comp(self, node):
+        return self._scoped(node, {n.id for g in node.generators for n in ast.walk(g.target) if isinstance(n, ast.Name)})
+
+    visit_ListComp = visit_SetComp = visit_GeneratorExp = visit_DictComp = _comp
+
+    def visit_Lambda(self, node):
+        a = node.args
+        return self._scoped(node, {x.arg for x in a.posonlyargs + a.args + a.kwonlyargs} | ({a.vararg.arg} if a.vararg else set()) | ({a.kwarg.arg} if a.kwarg else set()))
+
+
+def subst(expr, env):
+    """`expr` with every local replaced by the value it names in `env` (a copy; the original tree is never touched)."""
+    return None if expr is None else _Sub(env).visit(copy.deepcopy(expr))
+
+
+def _first_ifexp(e):
+    stack = [e]
+    while stack:
+        n = stack.pop(0)
+        if isinstance(n, ast.IfExp):
+            return n
+        if isinstance(n, (ast.Lambda, ast.ListComp, ast.SetComp, ast.DictComp, ast.GeneratorExp)):
+            continue
+        stack = list(ast.iter_child_nodes(n)) + stack
+    return None
+
+
+def split_ifexp(e, _depth=0):
+    """[(expression without conditional expressions, [(test, polarity), ...])]: one entry per way the conditionals can go."""
+    t = _first_ifexp(e) if e is not None else None
+    if t is None or _depth > 4:
+        return [(e, [])]
+    out = []
+    for pol in (True, False):
+        memo = {}
+        e2 = copy.deepcopy(e, memo)
+        t2 = memo[id(t)]
+        arm = t2.body if pol else t2.orelse
+        if e2 is t2:
+            e2 = arm
+        else:
+            for parent in ast.walk(e2):
+                for f, v in ast.iter_fields(parent):
+                    if v is t2:
+                        setattr(parent, f, arm)
+                    elif isinstance(v, list) and any(x is t2 for x in v):
+                        setattr(parent, f, [arm if x is t2 else x for x in v])
+        for (e3, cs) in split_ifexp(e2, _depth + 1):
+            out.append((e3, [(t2.test, pol)] + cs))
+    return out
+
+
+_LIT = re.compile(r"""^(?:[rbuRBU]{0,2}['"]|-?\d|None$|True$|False$)""")
+
+
+def _lit_value(text):
+    """(True, value) when the operand text is a Python literal"""
+    if _LIT.match(text):
+        try:
+            return True, ast.literal_eval(text)
+        except Exception:
+            pass
+    return False, None
+
+
+def atoms_feasible(at):
+    """False only when the facts certainly contradict each other (x == 'a' and x == 'b'; x is None and x is not None; e and
+    not e).  Literals are compared by value (1 == 1.0 == True), so a path is never dropped because of spelling."""
+    eqs = {}
+    for a in at:
+        if a[0] == 'eq' and ('ne', a[1], a[2]) in at or a[0] == 'is' and ('isnot', a[1], a[2]) in at:
+            return False
+        if a[0] == 'true' and ('false', a[1]) in at or a[0] == 'in' and ('notin', a[1], a[2]) in at:
+            return False
+        if a[0] in ('ne', 'isnot') and a[1] == a[2]:
+            return False
+        if a[0] in ('eq', 'is'):
+            (l1, v1), (l2, v2) = _lit_value(a[1]), _lit_value(a[2])
+            if l1 and l2 and v1 != v2:
+                return False
+            for x, ly, vy in ((a[1], l2, v2), (a[2], l1, v1)):
+                if ly:
+                    eqs.setdefault(x, []).append(vy)
+    for vals in eqs.values():
+        if any(v != vals[0] for v in vals[1:]):
+            return False
+    return True
+
+
+class Ev:
+    """One event of a path. kind: def (sym := expr) | call (expr) | store (target, expr) | enter / exit (with statement, item
+    expressions) | loop (statement not unrolled) | opaque (statement outside the vocabulary)."""
+    __slots__ = ('kind', 'expr', 'stmt', 'sym', 'target', 'env', 'withs')
+
+    def __init__(self, kind, expr=None, stmt=None, sym=None, target=None, env=None, withs=()):
+        self.kind, self.expr, self.stmt, self.sym, self.target, self.env, self.withs = kind, expr, stmt, sym, target, env, withs
+
+    def exprs(self):
+        out = [x for x in ([self.target] + (self.expr if isinstance(self.expr, list) else [self.expr])) if x is not None]
+        return out
+
+
+class Path:
+    def __init__(self, params):
+        self.env = {}
+        self.conds = []
+        self.events = []
+        self.defs = {}
+        self.count = {p: 1 for p in params}
+        self.withs = []
+        self.end = None          # ('return', stmt, expr) | ('raise', stmt, None) | ('fall', None, None)
+
+    def fork(self):
+        p = Path(())
+        p.env, p.conds, p.events, p.defs, p.count, p.withs, p.end = dict(self.env), list(self.conds), list(self.events), dict(self.defs), dict(self.count), list(self.withs), self.end
+        return p
+
+    def atoms(self):
+        return path_atoms(self.conds)
+
+    def feasible_with(self, *extra):
+        return atoms_feasible(self.atoms() | set(extra))
+
+    def new_sym(self, name, expr, stmt):
+        k = self.count.get(name, 0)
+        self.count[name] = k + 1
+        sym = name if k == 0 else f'{name}~{k}'
+        self.defs[sym] = expr
+        self.events.append(Ev('def', expr, stmt, sym=sym, env=dict(self.env), withs=tuple(self.withs)))
+        return ast.Name(id=sym, ctx=ast.Load())
+
+    def resolve(self, e):
+        """Follow symbols to the expression that defined them."""
+        seen = 0
+        while isinstance(e, ast.Name) and e.id in self.defs and seen < 10:
+            e = self.defs[e.id]
+            seen += 1
+        return e
+
+    def uses(self, sym):
+        """How many times the symbol is read on this path (events, conditions, definitions of other symbols, the result)."""
+        n = 0
+        exprs = [x for ev in self.events for x in ev.exprs()] + [t for (t, _) in self.conds] + ([self.end[2]] if self.end and self.end[2] is not None else [])
+        for e in exprs:
+            n += sum(1 for x in ast.walk(e) if isinstance(x, ast.Name) and x.id == sym and isinstance(x.ctx, ast.Load))
+        return n
+
+    def event_of(self, stmt, kind=None):
+        return next((ev for ev in self.events if ev.stmt is stmt and (kind is None or ev.kind == kind)), None)
+
+
+def _unknown(name):
+    return ast.Name(id=f'?{name}', ctx=ast.Load())
+
+
+def sym_paths(fn):
+    """All acyclic paths of a function (ast.FunctionDef), each with its conditions, events and end."""
+    a = fn.args
+    params = [x.arg for x in a.posonlyargs + a.args + a.kwonlyargs] + ([a.vararg.arg] if a.vararg else []) + ([a.kwarg.arg] if a.kwarg else [])
+    done = []
+
+    def bind(p, target, value, stmt):
+        if isinstance(target, ast.Name):
+            p.env[target.id] = value
+        elif isinstance(target, (ast.Tuple, ast.List)):
+            for n in ast.walk(target):
+                if isinstance(n, ast.Name):
+                    p.env[n.id] = _unknown(n.id)
+        else:
+            p.events.append(Ev('store', value, stmt, target=subst(target, p.env), withs=tuple(p.withs)))
+
+    def value_of(p, names, v, stmt):
+        """simple expressions are substituted; calls / allocations become a symbol"""
+        if _is_simple(v):
+            return v
+        return p.new_sym(names[0] if names else '_', v, stmt)
+
+    def finish(p, kind, stmt, expr):
+        p.end = (kind, stmt, expr)
+        done.append(p)
+        if len(done) > MAX_PATHS:
+            raise Undecided(f'{fn.name}: more than {MAX_PATHS} paths')
+
+    def add_cond(p, test, pol):
+        if isinstance(test, ast.Constant):          # a flag that was substituted: the branch is decided
+            return bool(test.value) == pol
+        if isinstance(test, ast.UnaryOp) and isinstance(test.op, ast.Not) and isinstance(test.operand, ast.Constant):
+            return (not test.operand.value) == pol
+        p.conds.append((test, pol))
+        return atoms_feasible(p.atoms())
+
+    def run(stmts, live):
+        for s in stmts:
+            if not live:
+                return live
+            nxt = []
+            for p in live:
+                nxt += step(s, p)
+            live = nxt
+        return live
+
+    def step(s, p):
+        if isinstance(s, (ast.Pass, ast.Import, ast.ImportFrom, ast.Global, ast.Nonlocal)) or isinstance(s, ast.Expr) and isinstance(s.value, ast.Constant):
+            return [p]
+        if isinstance(s, (ast.Assign, ast.AnnAssign)):
+            if s.value is None:
+                return [p]
+            targets = s.targets if isinstance(s, ast.Assign) else [s.target]
+            names = [t.id for t in targets if isinstance(t, ast.Name)]
+            out = []
+            for v, cs in split_ifexp(subst(s.value, p.env)):
+                q = p.fork() if cs else p
+                if all(add_cond(q, t, pol) for (t, pol) in cs):
+                    val = value_of(q, names, v, s)
+                    for t in targets:
+                        bind(q, t, val, s)
+                    out.append(q)
+            return out
+        if isinstance(s, ast.AugAssign):
+            if isinstance(s.target, ast.Name):
+                cur = p.env.get(s.target.id, ast.Name(id=s.target.id, ctx=ast.Load()))
+                v = ast.BinOp(left=copy.deepcopy(cur), op=s.op, right=subst(s.value, p.env))
+                p.env[s.target.id] = value_of(p, [s.target.id], v, s)
+            else:
+                p.events.append(Ev('store', subst(s.value, p.env), s, target=subst(s.target, p.env), withs=tuple(p.withs)))
+            return [p]
+        if isinstance(s, ast.Expr):
+            p.events.append(Ev('call', subst(s.value, p.env), s, withs=tuple(p.withs)))
+            return [p]
+        if isinstance(s, ast.If):
+            test = subst(s.test, p.env)
+            out = []
+            for pol, body in ((True, s.body), (False, s.orelse)):
+                q = p.fork()
+                if add_cond(q, test, pol):
+                    out += run(body, [q])
+            return out
+        if isinstance(s, ast.Return):
+            for v, cs in split_ifexp(subst(s.value, p.env)):
+                q = p.fork()
+                if all(add_cond(q, t, pol) for (t, pol) in cs):
+                    finish(q, 'return', s, v)
+            return []
+        if isinstance(s, ast.Raise):
+            finish(p, 'raise', s, None)
+            return []
+        if isinstance(s, ast.Assert):
+            if isinstance(s.test, ast.Constant) and not s.test.value:
+                finish(p, 'raise', s, None)
+                return []
+            return [p] if add_cond(p, subst(s.test, p.env), True) else []
+        if isinstance(s, ast.Try):
+            # the protected block runs in line; handlers only run after an exception and are looked at by the rules that care
+            p.events.append(Ev('try', None, s, withs=tuple(p.withs)))
+            live = run(s.orelse, run(s.body, [p]))
+            # a handler that falls through rejoins the normal flow: what it binds is unknown from here on
+            rebound = {n.id for h in s.handlers if not always_exits(h.body) for x in stmts_in(h.body) for t in assigned_targets(x) for n in ast.walk(t)
+                       if isinstance(n, ast.Name) and isinstance(n.ctx, ast.Store)}
+            for q in live:
+                for name in rebound:
+                    q.env[name] = _unknown(name)
+            return run(s.finalbody, live)
+        if isinstance(s, (ast.With, ast.AsyncWith)):
+            out = []
+            for tup, cs in split_ifexp(ast.Tuple(elts=[subst(i.context_expr, p.env) for i in s.items], ctx=ast.Load())):
+                q = p.fork() if cs else p
+                if not all(add_cond(q, t, pol) for (t, pol) in cs):
+                    continue
+                items = list(tup.elts)
+                q.events.append(Ev('enter', items, s, env=dict(q.env), withs=tuple(q.withs)))
+                for i, ce in zip(s.items, items):
+                    if isinstance(i.optional_vars, ast.Name):
+                        entered = ast.Call(func=ast.Name(id='__enter__', ctx=ast.Load()), args=[ce], keywords=[])
+                        q.env[i.optional_vars.id] = q.new_sym(i.optional_vars.id, entered, s)
+                    elif i.optional_vars is not None:
+                        bind(q, i.optional_vars, _unknown('with'), s)
+                q.withs.append(s)
+                for r in run(s.body, [q]):
+                    r.withs.pop()
+                    r.events.append(Ev('exit', None, s, withs=tuple(r.withs)))
+                    out.append(r)
+            return out
+        if isinstance(s, (ast.For, ast.AsyncFor, ast.While)):
+            p.events.append(Ev('loop', subst(s.iter, p.env) if not isinstance(s, ast.While) else subst(s.test, p.env), s, env=dict(p.env), withs=tuple(p.withs)))
+            for x in [s] + list(stmts_in(s.body)) + list(stmts_in(s.orelse)):
+                for t in assigned_targets(x):
+                    for n in ast.walk(t):
+                        if isinstance(n, ast.Name) and isinstance(n.ctx, ast.Store):      # rebound (a mutated object keeps its identity)
+                            p.env[n.id] = _unknown(n.id)
+            return [p]
+        if isinstance(s, (ast.FunctionDef, ast.AsyncFunctionDef, ast.ClassDef)):
+            p.env[s.name] = _unknown(s.name)
+            return [p]
+        # a statement outside the vocabulary (match, del, ...): whatever it binds is unknown afterwards
+        p.events.append(Ev('opaque', None, s, withs=tuple(p.withs)))
+        for n in ast.walk(s):
+            if isinstance(n, ast.Name) and isinstance(n.ctx, (ast.Store, ast.Del)):
+                p.env[n.id] = _unknown(n.id)
+        return [p]
+
+    for p in run(fn.body, [Path(params)]):
+        finish(p, 'fall', None, None)
+    return done
+
+
+def returning(paths):
+    return [p for p in paths if p.end[0] == 'return']
 
 
 def check_isolation(ctx):
@@ -21,20 +382,50 @@ def check_isolation(ctx):
     fi = m.func('gambit.sigs.calc.calc_file_signature')
     rep.functions.add(fi.qualname)
     kp, sf = fi.params()[:2]
-    cs = [c for c in calls_in(fi.node) if m.resolve_call(fi, c) == 'gambit.sigs.calc.calc_signature']
-    rep.require(len(cs) == 1, 'calc_file_signature: expected one calc_signature call')
-    c = cs[0]
-    st = next(s for s in stmts_in(fi.node.body) if any(x is c for x in ast.walk(s)) and isinstance(s, (ast.Return, ast.Assign)))
-    w = next((o for (_, _, o) in block_path(fi.node, st) if isinstance(o, ast.With)), None)
-    okw = w is not None and len(w.items) == 1 and u(w.items[0].context_expr) == f'{sf}.parse()' and w.items[0].optional_vars is not None
-    rep.add('F1', fi.site(w), 'records come from the lazy parser of this file, inside a context that closes the stream', okw, expected=f'with {sf}.parse() as records', found=u(w.items[0].context_expr) if w is not None else None, stmt='parse context')
-    recs = u(w.items[0].optional_vars) if okw else None
-    g = c.args[1] if len(c.args) > 1 else None
-    okg = isinstance(g, (ast.GeneratorExp, ast.ListComp)) and len(g.generators) == 1 and not g.generators[0].ifs and u(g.generators[0].iter) == recs and u(g.elt) == f'{u(g.generators[0].target)}.seq'
-    rep.add('F1', fi.site(c), 'each record is handed over as its own sequence: one element per record, nothing filtered or merged', okg, expected=f'(record.seq for record in {recs})', found=u(g), stmt='per-record generator')
-    rep.account_returns('F1', fi, [st] if isinstance(st, ast.Return) else [], 'file signature')
-    rep.add('F1', fi.site(c), 'the file is searched with the given parameters and the optional caller accumulator', u(c.args[0]) == kp and u(get_kw(c, 'accumulator')) == 'accumulator', expected=f'calc_signature({kp}, ..., accumulator=accumulator)',
-            found=u(c)[:80], stmt='calc_signature operands')
+    QS = 'gambit.sigs.calc.calc_signature'
+    rets = returning(sym_paths(fi.node))
+    hits = []
+    for p in rets:
+        v = p.resolve(p.end[2])
+        if isinstance(v, ast.Call) and m.resolve_call(fi, v) == QS:
+            # the search runs where the call is evaluated: at the return itself, or where the local holding its value was bound
+            d = next((ev for ev in p.events if ev.kind == 'def' and isinstance(p.end[2], ast.Name) and ev.sym == p.end[2].id), None)
+            hits.append((p, v, tuple(p.withs) if d is None else d.withs))
+        else:
+            post = [x.id for x in ast.walk(v) if isinstance(x, ast.Name) and isinstance(p.defs.get(x.id), ast.Call) and m.resolve_call(fi, p.defs[x.id]) == QS] if v is not None else []
+            rep.require(not post, f'calc_file_signature: the result of calc_signature is post-processed before it is returned: {u(v)}')
+    rep.require(hits, 'calc_file_signature: no path returns the result of a calc_signature call')
+    unknown_forms = []
+    for p, c, withs in hits:
+        g0 = c.args[1] if len(c.args) > 1 else get_kw(c, 'seqs')
+        g = p.resolve(g0)
+        if isinstance(g, ast.ListComp) and isinstance(g0, ast.Name):
+            # an eagerly built list reads the records where it is built; the search may then run anywhere
+            withs = next(ev.withs for ev in p.events if ev.kind == 'def' and ev.sym == g0.id)
+        if not isinstance(g, (ast.GeneratorExp, ast.ListComp)):
+            unknown_forms.append(u(g))
+            continue
+        # the parse context that is open while the (lazy) records are consumed by the search
+        recs, w = None, None
+        for d in [e for e in p.events if e.kind == 'def' and isinstance(e.stmt, ast.With)]:
+            if u(d.expr) == f'__enter__({sf}.parse())':
+                recs, w = d.sym, d.stmt
+        found_w = [u(x) for cand in withs for x in p.event_of(cand, 'enter').expr]
+        rep.add('F1', fi.site(w if w is not None else c), 'records come from the lazy parser of this file, and the search consumes them inside the context that closes the stream', recs is not None and any(w is x for x in withs),
+                expected=f'with {sf}.parse() as records: ... calc_signature(...)', found=found_w or 'calc_signature is evaluated outside any `with`', stmt='parse context')
+        okg = isinstance(g, (ast.GeneratorExp, ast.ListComp)) and len(g.generators) == 1 and not g.generators[0].ifs and not g.generators[0].is_async and isinstance(g.generators[0].target, ast.Name) \
+            and recs is not None and u(g.generators[0].iter) == recs and u(g.elt) == f'{g.generators[0].target.id}.seq'
+        # the record stream and a lazily evaluated generator are single use: nothing else may draw from them
+        once = recs is None or p.uses(recs) == 1
+        if okg and isinstance(g0, ast.Name) and isinstance(g, ast.GeneratorExp):
+            once = once and p.uses(g0.id) == 1
+        rep.add('F1', fi.site(c), 'each record is handed over as its own sequence: one element per record, nothing filtered or merged', okg, expected=f'(record.seq for record in {recs or "records"})', found=u(g), stmt='per-record generator')
+        rep.add('F1', fi.site(c), 'nothing else draws from the record stream (no record is consumed before the search sees it)', once, expected='records read only by the per-record generator, generator consumed only by calc_signature',
+                found={x: p.uses(x) for x in ([recs] if recs else []) + ([g0.id] if isinstance(g0, ast.Name) else [])}, stmt='single consumer')
+        rep.add('F1', fi.site(c), 'the file is searched with the given parameters and the optional caller accumulator', c.args and u(c.args[0]) == kp and u(get_kw(c, 'accumulator')) == 'accumulator', expected=f'calc_signature({kp}, ..., accumulator=accumulator)',
+                found=u(c)[:80], stmt='calc_signature operands')
+    bad = {id(p.end[1]) for p in rets} - {id(p.end[1]) for p, _, _ in hits}
+    rep.account_returns('F1', fi, [p.end[1] for p, _, _ in hits if id(p.end[1]) not in bad], 'file signature')
     # no concatenation anywhere between the records and the search
     n = 0
     for q in ('gambit.sigs.calc.calc_file_signature', 'gambit.sigs.calc.calc_signature', 'gambit.sigs.calc.accumulate_kmers', 'gambit.kmers.find_kmers'):
@@ -53,6 +444,7 @@ def check_isolation(ctx):
         n += 1
         rep.add('F1', f.site(), f'{f.name}: sequences are never concatenated or joined (no k-mer can span two contigs)', not bad, expected='no join / + / sum on sequences', found=bad, stmt=f'no concat {f.name}', construct=q)
     rep.floor('F1', 'functions scanned for concatenation', n, 4)
+    rep.require(not unknown_forms, f'calc_file_signature: the records are handed to calc_signature through a construct outside the vocabulary (a generator expression or list comprehension over the records is interpreted): {unknown_forms}')
     # shared accumulator + per sequence loop: C01-K9 re-evaluated
     c01.analyse_accumulate(ctx)
 
@@ -79,97 +471,290 @@ def check_compression(ctx):
         rep.add('F4', fi.site(call), 'genome files given on the command line are opened with content-based compression detection', comp not in (None, Ellipsis) and is_const(comp, 'auto') and is_const(fmt, 'fasta'),
                 expected="(..., 'fasta', 'auto')", found=u(call)[:80], stmt=call, construct=fi.qualname)
     rep.floor('F4', 'SequenceFile construction sites in cli/', sites, 4)
+    check_open(ctx)
+    check_open_compressed(ctx)
+    check_open_auto(ctx)
+    check_guess(ctx)
+
+
+_NOCONST = object()
+
+
+def const_of(m, module, e):
+    """Python value of a literal, a module-level constant or len() of one; _NOCONST otherwise."""
+    if isinstance(e, ast.Call) and isinstance(e.func, ast.Name) and e.func.id == 'len' and len(e.args) == 1 and not e.keywords:
+        v = const_of(m, module, e.args[0])
+        return len(v) if isinstance(v, (bytes, str, tuple, list)) else _NOCONST
+    try:
+        return m.const_value(module, e)
+    except Undecided:
+        return _NOCONST
+
+
+def check_open(ctx):
+    """SequenceFile.open: whatever way it is written, the value that reaches open_compressed as compression is 'none' when the
+    attribute is None and the attribute itself otherwise."""
+    rep, m = ctx.rep, ctx.model
     fo = m.func('gambit.seq.SequenceFile.open')
     rep.functions.add(fo.qualname)
-    rets = [s for s in fo.node.body if isinstance(s, ast.Return)]
-    oko = len(rets) == 1 and isinstance(rets[0].value, ast.Call) and m.resolve_call(fo, rets[0].value) == 'gambit.util.io.open_compressed' and [u(a) for a in rets[0].value.args[:2]] == ['self.path', fo.params()[1]] \
-        and len(rets[0].value.args) >= 3
-    cname = u(rets[0].value.args[2]) if oko else None
-    cdef = [s for s in fo.node.body if isinstance(s, ast.Assign) and u(s.targets[0]) == cname]
-    oko = oko and len(cdef) == 1 and isinstance(cdef[0].value, ast.IfExp) and atoms(cdef[0].value.test) == {('is', 'None', 'self.compression')} and is_const(cdef[0].value.body, 'none') and u(cdef[0].value.orelse) == 'self.compression'
-    rep.add('F4', fo.site(), "SequenceFile.open forwards its own path and compression ('none' when unset)", oko, expected="open_compressed(self.path, mode, 'none' if self.compression is None else self.compression)", found=[u(s) for s in cdef + rets],
-            stmt='SequenceFile.open')
+    md = fo.params()[1]
+    sc = 'self.compression'
+    rets = returning(sym_paths(fo.node))
+    rep.require(rets, 'SequenceFile.open: no returning path')
+    cases = {'unset': 0, 'set': 0}
+    accounted = []
+    for p in rets:
+        c = p.resolve(p.end[2])
+        if not (isinstance(c, ast.Call) and m.resolve_call(fo, c) == 'gambit.util.io.open_compressed'):
+            continue            # reported by the return accounting below
+        accounted.append(p.end[1])
+        comp = get_arg(c, 2, 'compression')
+        at = p.atoms()
+        other = sorted(a for a in at if sc in a[1:] and a not in (('is', 'None', sc), ('isnot', 'None', sc)))
+        rep.require(not other, f'SequenceFile.open: the compression default is decided by a test outside the vocabulary (only `is None` is interpreted): {other}')
+        rep.require(comp is not Ellipsis and not is_unknown(comp), f'SequenceFile.open: cannot follow the compression argument of {u(c)}')
+        undecided_path = p.feasible_with(('is', 'None', sc)) and p.feasible_with(('isnot', 'None', sc))
+        rep.require(not undecided_path or comp is None or u(comp) == sc or const_of(m, fo.module, comp) is not _NOCONST,
+                    f'SequenceFile.open: the compression argument is computed by a construct outside the vocabulary: {u(comp)}')
+        ok = True
+        want = []
+        if p.feasible_with(('is', 'None', sc)):
+            cases['unset'] += 1
+            want.append("'none'")
+            ok = ok and comp is not None and const_of(m, fo.module, comp) == 'none'
+        if p.feasible_with(('isnot', 'None', sc)):
+            cases['set'] += 1
+            want.append(sc)
+            ok = ok and u(comp) == sc
+        ok = ok and [u(a) for a in c.args[:2]] == ['self.path', md]
+        rep.add('F4', fo.site(p.end[1]), "SequenceFile.open forwards its own path and compression ('none' when unset)", ok, expected=f"open_compressed(self.path, {md}, {' / '.join(want)}) under {sorted(at)}",
+                found=u(c), stmt='SequenceFile.open')
+    rep.add('F4', fo.site(), 'SequenceFile.open opens the file both when the compression is set and when it is unset', cases['unset'] > 0 and cases['set'] > 0, expected='a path for compression None and one for a given compression',
+            found=cases, stmt='SequenceFile.open cases')
+    rep.account_returns('F4', fo, accounted, 'opened stream')
+
+
+def check_open_compressed(ctx):
+    rep, m = ctx.rep, ctx.model
     foc = m.func('gambit.util.io.open_compressed')
     rep.functions.add(foc.qualname)
-    gm = guard_map(foc.node)
-    rets = [s for s in stmts_in(foc.node.body) if isinstance(s, ast.Return)]
-    auto = [r for r in rets if ('eq', "'auto'", foc.params()[2]) in path_atoms(gm[r])]
-    oka = len(auto) == 1 and isinstance(auto[0].value, ast.Call) and m.resolve_call(foc, auto[0].value) == 'gambit.util.io._open_auto' and [u(a) for a in auto[0].value.args] == foc.params()[:2]
-    rep.add('F4', foc.site(auto[0] if auto else None), "'auto' dispatches to the content sniffer with the same path and mode", oka, expected='_open_auto(path, mode, **kwargs)', found=[u(r.value) for r in auto], stmt='auto dispatch')
+    pa, md, cp = foc.params()[:3]
+    auto = [p for p in returning(sym_paths(foc.node)) if p.feasible_with(('eq', "'auto'", cp))]
+    found = []
+    oka = bool(auto)
+    for p in auto:
+        c = p.resolve(p.end[2])
+        found.append(f'{u(c)} under {sorted(p.atoms())}')
+        rep.require(not is_unknown(c) and not (isinstance(c, ast.Call) and not isinstance(c.func, (ast.Name, ast.Attribute))),
+                    f"open_compressed: the opener for compression 'auto' is selected by a construct outside the vocabulary: {u(c)[:80]}")
+        good = isinstance(c, ast.Call) and m.resolve_call(foc, c) == 'gambit.util.io._open_auto' and len(c.args) >= 2 and u(c.args[1]) == md
+        if good:
+            pth = c.args[0]
+            dv = p.defs.get(pth.id) if isinstance(pth, ast.Name) else None
+            # the path itself, or its str form
+            good = u(pth) == pa or (isinstance(dv, ast.Call) and u(dv.func) in ('os.fsdecode', 'os.fspath', 'str') and [u(a) for a in dv.args] == [pa])
+        oka = oka and good
+    rep.add('F4', foc.site(auto[0].end[1] if auto else None), "'auto' dispatches to the content sniffer with the same path and mode", oka, expected=f'_open_auto({pa}, {md}, **kwargs) whenever {cp} == \'auto\'', found=found, stmt='auto dispatch')
+
+
+def _text_wrapper(m, fi, p, v):
+    """(binary stream expression, has a newline override) when v is TextIOWrapper(<stream>, ...), else None"""
+    v = p.resolve(v)
+    if isinstance(v, ast.Call) and (m.resolve_call(fi, v) or callee(v) or '').split('.')[-1] == 'TextIOWrapper' and v.args and not isinstance(v.args[0], ast.Starred):
+        return v.args[0], get_kw(v, 'newline') is not None
+    return None
+
+
+def check_open_auto(ctx):
+    """_open_auto, decided per path: which stream object is returned for which detected compression and which mode."""
+    rep, m = ctx.rep, ctx.model
     fa = m.func('gambit.util.io._open_auto')
     rep.functions.add(fa.qualname)
-    gma = guard_map(fa.node)
     pa, md = fa.params()[:2]
-    op = [s for s in stmts_in(fa.node.body) if isinstance(s, ast.Assign) and isinstance(s.value, ast.Call) and u(s.value.func) == 'open']
-    okop = len(op) == 1 and [u(a) for a in op[0].value.args] == [pa, "'rb'"]
-    fv = u(op[0].targets[0]) if op else None
-    rep.add('F4', fa.site(op[0] if op else None), 'the file is first opened in binary mode', okop, expected=f"open({pa}, 'rb')", found=[u(o.value) for o in op], stmt='binary open')
-    gs = [s for s in stmts_in(fa.node.body) if isinstance(s, ast.Assign) and isinstance(s.value, ast.Call) and m.resolve_call(fa, s.value) == 'gambit.util.io.guess_compression']
-    sk = [s for s in stmts_in(fa.node.body) if isinstance(s, ast.Expr) and isinstance(s.value, ast.Call) and u(s.value.func) == f'{fv}.seek']
-    oks = len(gs) == 1 and [u(a) for a in gs[0].value.args] == [fv] and len(sk) == 1 and [u(a) for a in sk[0].value.args] == ['0'] and gs[0].lineno < sk[0].lineno \
-        and block_path(fa.node, sk[0])[-1][0] is block_path(fa.node, gs[0])[-1][0]
-    rep.add('F4', fa.site(sk[0] if sk else (gs[0] if gs else None)), 'the stream is rewound to the start after sniffing (the magic bytes are part of the data)', oks, expected=f'compression = guess_compression({fv}); {fv}.seek(0)',
-            found=[u(s) for s in gs + sk], stmt='rewind')
-    cv = u(gs[0].targets[0]) if gs else None
-    rets_a = [s for s in stmts_in(fa.node.body) if isinstance(s, ast.Return)]
-    bname = None
-    if len(rets_a) == 1 and isinstance(rets_a[0].value, ast.IfExp):
-        for arm in (rets_a[0].value.body, rets_a[0].value.orelse):
-            if isinstance(arm, ast.Name):
-                bname = arm.id
-    bins = [s for s in stmts_in(fa.node.body) if isinstance(s, ast.Assign) and u(s.targets[0]) == bname]
-    table = {}
-    for s in bins:
-        for a in path_atoms(gma[s]):
-            if a[0] == 'eq' and cv in a:
-                table[(a[1] if a[2] == cv else a[2]).strip("'")] = u(s.value)
-    okb = table.get('none') == fv and table.get('gzip', '').replace(' ', '') in (f"gzip.GzipFile(fileobj={fv},mode='rb')",)
-    rep.add('F4', fa.site(bins[0] if bins else None), 'plain content is read as is, gzip content through GzipFile over the same stream', okb, expected=f"none -> {fv}; gzip -> gzip.GzipFile(fileobj={fv}, mode='rb')", found=table, stmt='decompression table')
-    rets = [s for s in stmts_in(fa.node.body) if isinstance(s, ast.Return)]
-    okt = False
-    if len(rets) == 1 and isinstance(rets[0].value, ast.IfExp):
-        ie = rets[0].value
-        tw = ie.body
-        okt = isinstance(tw, ast.Call) and u(tw.func) == 'TextIOWrapper' and [u(a) for a in tw.args] == [bname] and get_kw(tw, 'newline') is None and u(ie.orelse) == bname \
-            and atoms(ie.test) == {('eq', "'t'", f'{md}[1]')}
-    rep.add('F4', fa.site(rets[0] if rets else None), 'text mode wraps the (decompressed) stream in a TextIOWrapper with universal newlines (LF and CRLF equivalent)', okt, expected="TextIOWrapper(<binary stream>, **kwargs) if mode[1] == 't' else <binary stream>",
-            found=[u(r.value) for r in rets], stmt='text wrapper')
-    rep.account_returns('F4', fa, rets[:1], 'opened stream')
-    rs = [s for s in stmts_in(fa.node.body) if isinstance(s, ast.Raise)]
-    rep.add('F4', fa.site(rs[0] if rs else None), 'auto detection is for reading only', any(('ne', "'r'", f'{md}[0]') in path_atoms(gma[r]) for r in rs), expected="raise when mode[0] != 'r'", found=[sorted(path_atoms(gma[r])) for r in rs], stmt='read only')
+    paths = sym_paths(fa.node)
+    rets = returning(paths)
+    rep.require(rets, '_open_auto: no returning path')
+
+    def defs_of(p, pred):
+        return [ev for ev in p.events if ev.kind == 'def' and isinstance(ev.expr, ast.Call) and pred(ev.expr)]
+
+    # binary open
+    opens = {id(ev.stmt): ev for p in rets for ev in defs_of(p, lambda c: u(c.func) == 'open')}
+    per_path = [defs_of(p, lambda c: u(c.func) == 'open') for p in rets]
+    okop = all(len(o) == 1 and u(get_arg(o[0].expr, 0, 'file')) == pa and is_const(get_arg(o[0].expr, 1, 'mode'), 'rb') for o in per_path)
+    op0 = next(iter(opens.values()), None)
+    rep.add('F4', fa.site(op0.stmt if op0 else None), 'the file is first opened in binary mode', okop, expected=f"open({pa}, 'rb')", found=[u(o.expr) for o in opens.values()], stmt='binary open')
+    rep.require(okop or opens, '_open_auto: the statement that opens the file was not found')
+    # rewind
+    oks, found_s, site_s = True, [], None
+    info = []
+    for p, o in zip(rets, per_path):
+        fv = o[0].sym if len(o) == 1 else None
+        gs = defs_of(p, lambda c: m.resolve_call(fa, c) == 'gambit.util.io.guess_compression')
+        sk = [ev for ev in p.events if ev.kind == 'call' and isinstance(ev.expr, ast.Call) and u(ev.expr.func) == f'{fv}.seek']
+        good = fv is not None and len(gs) == 1 and [u(a) for a in gs[0].expr.args] == [fv] and len(sk) == 1 and [u(a) for a in sk[0].expr.args] == ['0'] and not sk[0].expr.keywords \
+            and p.events.index(gs[0]) < p.events.index(sk[0])
+        if good:
+            # nothing is built on the stream before it is rewound
+            early = [ev for ev in p.events[:p.events.index(sk[0])] if ev.kind == 'def' and ev is not gs[0] and ev.sym != fv and any(isinstance(x, ast.Name) and x.id == fv for x in ast.walk(ev.expr))]
+            good = not early
+        oks = oks and good
+        found_s = found_s or [u(x) for ev in gs + sk for x in ev.exprs()]
+        site_s = site_s or (sk[0].stmt if sk else gs[0].stmt if gs else None)
+        info.append((p, fv, gs[0].sym if len(gs) == 1 else None))
+    rep.add('F4', fa.site(site_s), 'the stream is rewound to the start after sniffing (the magic bytes are part of the data)', oks, expected='compression = guess_compression(<file>); <file>.seek(0) on every path that returns a stream',
+            found=found_s, stmt='rewind')
+    # which stream for which detected compression / mode
+    tkey = f'{md}[1]'
+    table, okb, okt = {}, True, True
+    seen_mode = {'text': 0, 'binary': 0}
+    for p, fv, cv in info:
+        for mode_name, fact in (('text', ('eq', "'t'", tkey)), ('binary', ('ne', "'t'", tkey))):
+            if not p.feasible_with(fact):
+                continue
+            seen_mode[mode_name] += 1
+            v = p.end[2]
+            rep.require(not is_unknown(v), f'_open_auto: cannot follow the returned stream {u(v)}')
+            if p.feasible_with(('eq', "'t'", tkey)) and p.feasible_with(('ne', "'t'", tkey)):
+                # text / binary not decided on this path: fine to judge when the mode is not looked at at all, not when it is
+                # looked at through a test this rule cannot interpret
+                for t, pol in p.conds:
+                    if md in names_in(t):
+                        a = atoms(t, pol)
+                        rep.require(a is not None and all(tkey in x[1:] or f'{md}[0]' in x[1:] for x in a),
+                                    f'_open_auto: text / binary mode is decided by a test outside the vocabulary (only comparisons of {tkey} are interpreted): {u(t)}')
+            if mode_name == 'text':
+                tw = _text_wrapper(m, fa, p, v)
+                good = tw is not None and not tw[1]
+                b = tw[0] if tw is not None else None
+            else:
+                good = _text_wrapper(m, fa, p, v) is None
+                b = v if good else None
+            if not good:
+                okt = False
+            for comp in ('none', 'gzip'):
+                if cv is None or not p.feasible_with(('eq', repr(comp), cv)) or b is None:
+                    continue
+                bd = p.defs.get(b.id) if isinstance(b, ast.Name) else None
+                is_gz = isinstance(bd, ast.Call) and (m.resolve_call(fa, bd) or '') == 'gzip.GzipFile'
+                comp_open = p.feasible_with(('eq', "'none'", cv)) and p.feasible_with(('eq', "'gzip'", cv))
+                rep.require(not comp_open or is_gz or isinstance(b, ast.Name) and b.id == fv,
+                            f'_open_auto: the stream is not selected by a test on the detected compression but by a construct outside the vocabulary: {u(bd) if bd is not None else u(b)}')
+                if comp == 'none':
+                    good_b = isinstance(b, ast.Name) and b.id == fv
+                else:
+                    good_b = isinstance(bd, ast.Call) and (m.resolve_call(fa, bd) or '') == 'gzip.GzipFile' and u(get_arg(bd, 3, 'fileobj')) == fv \
+                        and (get_arg(bd, 0, 'filename') is None or is_none(get_arg(bd, 0, 'filename'))) and (get_arg(bd, 1, 'mode') is None or u(get_arg(bd, 1, 'mode')) in ("'rb'", "'r'"))
+                table.setdefault(comp, set()).add(u(bd) if bd is not None and comp == 'gzip' else u(b))
+                okb = okb and good_b
+    okb = okb and set(table) == {'none', 'gzip'}
+    okt = okt and seen_mode['text'] > 0 and seen_mode['binary'] > 0
+    fv0 = next((fv for _, fv, _ in info if fv), '<file>')
+    rep.add('F4', fa.site(rets[0].end[1]), 'plain content is read as is, gzip content through GzipFile over the same stream', okb, expected=f"none -> {fv0}; gzip -> gzip.GzipFile(fileobj={fv0}, mode='rb')",
+            found={k: sorted(v) for k, v in table.items()}, stmt='decompression table')
+    rep.add('F4', fa.site(rets[0].end[1]), 'text mode wraps the (decompressed) stream in a TextIOWrapper with universal newlines (LF and CRLF equivalent)', okt, expected=f"TextIOWrapper(<binary stream>, **kwargs) if {tkey} == 't' else <binary stream>",
+            found=sorted({f'{u(p.end[2])} under {sorted(a for a in p.atoms() if tkey in a)}' for p in rets}), stmt='text wrapper')
+    seen = []
+    for p in rets:
+        if not any(p.end[1] is x for x in seen):
+            seen.append(p.end[1])
+    rep.account_returns('F4', fa, seen, 'opened stream')
+    # reading only
+    rkey = f'{md}[0]'
+    wr = [p for p in paths if p.feasible_with(('ne', "'r'", rkey))]
+    rep.add('F4', fa.site(wr[0].end[1] if wr and wr[0].end[1] is not None else None), 'auto detection is for reading only', bool(wr) and all(p.end[0] == 'raise' and isinstance(p.end[1], ast.Raise) for p in wr),
+            expected=f"raise when {rkey} != 'r'", found=[(p.end[0], sorted(p.atoms())) for p in wr], stmt='read only')
+
+
+def check_guess(ctx):
+    """guess_compression: 'gzip' exactly when the first two bytes are 1f 8b."""
+    rep, m = ctx.rep, ctx.model
     fg = m.func('gambit.util.io.guess_compression')
     rep.functions.add(fg.qualname)
-    gmg = guard_map(fg.node)
-    rd = [s for s in fg.node.body if isinstance(s, ast.Assign) and isinstance(s.value, ast.Call) and callee_attr(s.value) == 'read']
-    okr = len(rd) == 1 and [u(a) for a in rd[0].value.args] == ['2'] and u(rd[0].value.func.value) == fg.params()[0]
-    mg = u(rd[0].targets[0]) if rd else None
-    rets = [s for s in stmts_in(fg.node.body) if isinstance(s, ast.Return)]
-    tbl = {}
-    for r in rets:
-        at = path_atoms(gmg[r])
-        key = 'gzip-magic' if ('eq', "b'\\x1f\\x8b'", mg) in at or ('eq', mg, "b'\\x1f\\x8b'") in at else 'other' if any(a[0] == 'ne' and mg in a for a in at) else '?'
-        tbl[key] = u(r.value)
-    rep.add('F4', fg.site(), "compression is recognised from the first two bytes: 1f 8b -> gzip, anything else -> none", okr and tbl == {'gzip-magic': "'gzip'", 'other': "'none'"}, expected="read(2) == b'\\x1f\\x8b' -> 'gzip' else 'none'", found=tbl,
-            stmt='gzip magic')
+    fobj = fg.params()[0]
+    MAGIC = b'\x1f\x8b'
+    rets = returning(sym_paths(fg.node))
+    rep.require(rets, 'guess_compression: no returning path')
+
+    def is_read(e):
+        return isinstance(e, ast.Call) and isinstance(e.func, ast.Attribute) and e.func.attr == 'read' and u(e.func.value) == fobj
+
+    tbl, okr, reads = {}, True, set()
+    for p in rets:
+        nread = sum(1 for e in [x for ev in p.events for x in ev.exprs()] + [t for t, _ in p.conds] + [p.end[2]] for x in ast.walk(e) if is_read(x))
+        facts = []
+        for t, pol in p.conds:
+            fact = None
+            if isinstance(t, ast.Compare) and len(t.ops) == 1 and isinstance(t.ops[0], (ast.Eq, ast.NotEq)):
+                for a, b in ((t.left, t.comparators[0]), (t.comparators[0], t.left)):
+                    ra = p.resolve(a)
+                    if is_read(ra) and len(ra.args) == 1 and not ra.keywords:
+                        n, c = const_of(m, fg.module, ra.args[0]), const_of(m, fg.module, b)
+                        rep.require(n is not _NOCONST and c is not _NOCONST, f'guess_compression: cannot evaluate the magic comparison {u(t)}')
+                        fact = (n, c, isinstance(t.ops[0], ast.Eq) == pol)
+                        reads.add(u(ra))
+            rep.require(fact is not None, f'guess_compression: the result depends on a test outside the vocabulary (only == / != between read(n) and a constant is interpreted): {u(t)}')
+            facts.append(fact)
+        rep.require(len(facts) == 1, f'guess_compression: a returning path with {len(facts)} magic comparisons')
+        n, c, eq = facts[0]
+        okr = okr and nread == 1 and n == 2
+        key = ('gzip-magic' if c == MAGIC and n == 2 else f'read({n}) == {c!r}') if eq else ('other' if c == MAGIC and n == 2 else f'read({n}) != {c!r}')
+        tbl.setdefault(key, set()).add(u(p.end[2]))
+    tbl = {k: sorted(v) for k, v in tbl.items()}
+    rep.add('F4', fg.site(), "compression is recognised from the first two bytes: 1f 8b -> gzip, anything else -> none", okr and tbl == {'gzip-magic': ["'gzip'"], 'other': ["'none'"]}, expected="read(2) == b'\\x1f\\x8b' -> 'gzip' else 'none'",
+            found=(tbl, sorted(reads)), stmt='gzip magic')
 
 
 def check_parse(ctx):
+    """parse(), decided per returning path: the stream opened in text mode through self.open is the one SeqIO.parse reads with the
+    file's own format, and the iterator returned owns exactly that stream; the error path closes it and re-raises."""
     rep, m = ctx.rep, ctx.model
     fp = m.func('gambit.seq.SequenceFile.parse')
     rep.functions.add(fp.qualname)
-    op = [s for s in stmts_in(fp.node.body) if isinstance(s, ast.Assign) and isinstance(s.value, ast.Call) and u(s.value.func) == 'self.open']
-    oko = len(op) == 1 and [u(a) for a in op[0].value.args] == ["'rt'"]
-    fv = u(op[0].targets[0]) if op else None
-    rep.add('F5', fp.site(op[0] if op else None), 'the file is opened in text mode through SequenceFile.open (so compression handling applies)', oko, expected="self.open('rt', **kwargs)", found=[u(o.value) for o in op], stmt='parse open')
-    sp = [c for c in calls_in(fp.node) if m.resolve_call(fp, c) == 'Bio.SeqIO.parse']
-    okp = len(sp) == 1 and [u(a) for a in sp[0].args] == [fv, 'self.format']
-    rep.add('F5', fp.site(sp[0] if sp else None), "records are produced by Biopython's parser for the file's declared format", okp, expected=f'SeqIO.parse({fv}, self.format)', found=[u(c) for c in sp], stmt='SeqIO.parse')
-    rets = [s for s in stmts_in(fp.node.body) if isinstance(s, ast.Return)]
-    okr = len(rets) == 1 and isinstance(rets[0].value, ast.Call) and u(rets[0].value.func) == 'ClosingIterator' and len(rets[0].value.args) == 2 and u(rets[0].value.args[1]) == fv
-    rep.account_returns('F5', fp, rets[:1], 'record iterator')
-    rep.add('F5', fp.site(rets[0] if rets else None), 'the record iterator owns the stream (closes it on exhaustion / context exit)', okr, expected=f'ClosingIterator(records, {fv})', found=[u(r.value) for r in rets], stmt='closing iterator')
+    rets = returning(sym_paths(fp.node))
+    rep.require(rets, 'SequenceFile.parse: no returning path')
+    oko = okp = okr = True
+    f_open, f_parse, f_ret, sites = [], [], [], {}
+    fv = None
+    for p in rets:
+        v = p.resolve(p.end[2])
+        f_ret.append(u(v))
+        good_r = isinstance(v, ast.Call) and (m.resolve_call(fp, v) or '') == 'gambit.util.io.ClosingIterator' and not any(isinstance(a, ast.Starred) for a in v.args)
+        it, fo = (get_arg(v, 0, 'iterable'), get_arg(v, 1, 'fobj')) if good_r else (None, None)
+        good_r = good_r and isinstance(fo, ast.Name) and fo.id in p.defs
+        okr = okr and good_r
+        sites.setdefault('ret', p.end[1])
+        if not good_r:
+            continue
+        fv = fo.id
+        # the stream
+        od = p.defs[fo.id]
+        f_open.append(u(od))
+        sites.setdefault('open', next(e.stmt for e in p.events if e.kind == 'def' and e.sym == fo.id))
+        oko = oko and isinstance(od, ast.Call) and m.resolve_call(fp, od) == 'gambit.seq.SequenceFile.open' and u(od.func) == 'self.open' and is_const(get_arg(od, 0, 'mode'), 'rt')
+        # the records
+        sp = p.resolve(it)
+        f_parse.append(u(sp))
+        okp = okp and isinstance(sp, ast.Call) and m.resolve_call(fp, sp) == 'Bio.SeqIO.parse' and u(get_arg(sp, 0, 'handle')) == fo.id and u(get_arg(sp, 1, 'format')) == 'self.format'
+        if isinstance(it, ast.Name):
+            sites.setdefault('parse', next((e.stmt for e in p.events if e.kind == 'def' and e.sym == it.id), None))
+    rep.add('F5', fp.site(sites.get('open')), 'the file is opened in text mode through SequenceFile.open (so compression handling applies)', oko and bool(f_open), expected="self.open('rt', **kwargs)", found=sorted(set(f_open)), stmt='parse open')
+    rep.add('F5', fp.site(sites.get('parse') or sites.get('ret')), "records are produced by Biopython's parser for the file's declared format", okp and bool(f_parse), expected=f'SeqIO.parse({fv}, self.format)', found=sorted(set(f_parse)), stmt='SeqIO.parse')
+    seen = []
+    for p in rets:
+        if not any(p.end[1] is x for x in seen):
+            seen.append(p.end[1])
+    rep.account_returns('F5', fp, seen, 'record iterator')
+    rep.add('F5', fp.site(sites.get('ret')), 'the record iterator owns the stream (closes it on exhaustion / context exit)', okr, expected=f'ClosingIterator(records, {fv})', found=sorted(set(f_ret)), stmt='closing iterator')
+    # error path: every call that can fail after the stream was opened runs inside a try whose handler closes the stream and re-raises
     tr = [s for s in stmts_in(fp.node.body) if isinstance(s, ast.Try)]
-    okt = len(tr) == 1 and any(any(isinstance(x, ast.Expr) and u(x.value) == f'{fv}.close()' for x in h.body) and isinstance(h.body[-1], ast.Raise) and h.body[-1].exc is None for h in tr[0].handlers)
+
+    def closes(h):
+        return any(isinstance(x, ast.Expr) and u(x.value) == f'{fv}.close()' for x in h.body) and isinstance(h.body[-1], ast.Raise) and h.body[-1].exc is None \
+            and (h.type is None or u(h.type) in ('BaseException', 'Exception'))
+    pcalls = [c for c in calls_in(fp.node) if m.resolve_call(fp, c) in ('Bio.SeqIO.parse', 'gambit.util.io.ClosingIterator')]
+    covered = [c for c in pcalls if any(any(x is c for b in t.body for x in ast.walk(b)) and any(closes(h) for h in t.handlers) for t in tr)]
+    okt = bool(pcalls) and len(covered) == len(pcalls)
     rep.add('F5', fp.site(tr[0] if tr else None), 'the stream is closed and the error re-raised if the parser cannot be set up', okt, expected=f'except: {fv}.close(); raise', found=[u(h)[:60] for t in tr for h in t.handlers], stmt='error path')
     ci = m.cls('gambit.util.io.ClosingIterator')
     nx = ci.methods.get('__next__')
@@ -217,6 +802,15 @@ from ..variants import V  # noqa: E402
 _S = 'src/gambit/sigs/calc.py'
 _IO = 'src/gambit/util/io.py'
 _SQ = 'src/gambit/seq.py'
+_OPEN_OLD = "\t\tcompression = 'none' if self.compression is None else self.compression\n"
+_WRAP_OLD = "\t\treturn TextIOWrapper(binary, **kwargs) if mode[1] == 't' else binary\n"
+_DET_OLD = "\t\tif compression == 'none':\n\t\t\tbinary = file\n\t\telif compression == 'gzip':\n\t\t\timport gzip\n\t\t\tbinary = gzip.GzipFile(fileobj=file, mode='rb')\n"
+_DISP_OLD = ("\tif compression == 'none':\n\t\treturn open(path, mode, **kwargs)\n\n\telif compression == 'gzip':\n\t\timport gzip\n\t\treturn gzip.open(path, mode, **kwargs)\n\n"
+             "\telif compression == 'auto':\n\t\treturn _open_auto(path, mode, **kwargs)\n\n\telse:\n\t\traise ValueError(f'Unknown compression type {compression!r}') from None\n")
+_GUESS_OLD = "\tmagic = fobj.read(2)\n\n\tif magic == b'\\x1f\\x8b':\n\t\treturn 'gzip'\n\telse:\n\t\treturn 'none'\n"
+_T = "T = TypeVar('T')\n"
+_PARSE_OLD = "\t\t\trecords = SeqIO.parse(fobj, self.format)\n\t\t\treturn ClosingIterator(records, fobj)\n\n\t\texcept:\n"
+_FILE_OLD = "\twith seqfile.parse() as records:\n\t\treturn calc_signature(kspec, (record.seq for record in records), accumulator=accumulator)\n"
 VARIANTS = [
     V('records concatenated', 'B', _S, "return calc_signature(kspec, (record.seq for record in records), accumulator=accumulator)",
       "return calc_signature(kspec, [b''.join(bytes(record.seq) for record in records)], accumulator=accumulator)", 'F1'),
@@ -232,4 +826,52 @@ VARIANTS = [
     V('format hard-coded to genbank in parse', 'B', _SQ, "records = SeqIO.parse(fobj, self.format)", "records = SeqIO.parse(fobj, 'genbank')", 'F5'),
     V('gzip branch reads the raw stream', 'B', _IO, "binary = gzip.GzipFile(fileobj=file, mode='rb')", "binary = file", 'F4'),
     V('E: list of record sequences instead of a generator', 'E', _S, "(record.seq for record in records)", "[record.seq for record in records]"),
+    # ---- idioms accepted by meaning (path-sensitive value flow), each with its broken twin
+    # a value bound to a local first / if statement instead of a conditional expression
+    V('E: open(): None default written as an if statement on a local', 'E', _SQ, _OPEN_OLD, "\t\tcompression = self.compression\n\t\tif compression is None:\n\t\t\tcompression = 'none'\n"),
+    V('twin: if statement with the None test inverted', 'B', _SQ, _OPEN_OLD, "\t\tcompression = self.compression\n\t\tif compression is not None:\n\t\t\tcompression = 'none'\n", 'F4'),
+    V('twin: local bound but the None default forgotten', 'B', _SQ, _OPEN_OLD, "\t\tcompression = self.compression\n", 'F4'),
+    V('twin: default applied on a second return path only for the wrong case', 'B', _SQ, _OPEN_OLD + "\t\treturn open_compressed(self.path, mode, compression, **kwargs)\n",
+      "\t\tif self.compression is None:\n\t\t\treturn open_compressed(self.path, mode, 'auto', **kwargs)\n\t\treturn open_compressed(self.path, mode, self.compression, **kwargs)\n", 'F4'),
+    # guard clause with early return instead of a conditional expression
+    V('E: text wrapper as a guard clause with early return', 'E', _IO, _WRAP_OLD, "\t\tif mode[1] == 't':\n\t\t\treturn TextIOWrapper(binary, **kwargs)\n\n\t\treturn binary\n"),
+    V('E: text wrapper bound to a local first', 'E', _IO, _WRAP_OLD, "\t\tif mode[1] == 't':\n\t\t\tstream = TextIOWrapper(binary, **kwargs)\n\t\telse:\n\t\t\tstream = binary\n\t\treturn stream\n"),
+    V('twin: guard clause wraps in binary mode instead of text mode', 'B', _IO, _WRAP_OLD, "\t\tif mode[1] == 'b':\n\t\t\treturn TextIOWrapper(binary, **kwargs)\n\n\t\treturn binary\n", 'F4'),
+    V('twin: guard clause with newline translation disabled', 'B', _IO, _WRAP_OLD, "\t\tif mode[1] == 't':\n\t\t\treturn TextIOWrapper(binary, newline='', **kwargs)\n\n\t\treturn binary\n", 'F4'),
+    V('twin: guard clause wraps the raw file instead of the decompressed stream', 'B', _IO, _WRAP_OLD, "\t\tif mode[1] == 't':\n\t\t\treturn TextIOWrapper(file, **kwargs)\n\n\t\treturn binary\n", 'F4'),
+    # branch order of a dispatch on mutually exclusive values
+    V('E: detection branches in the other order', 'E', _IO, _DET_OLD, "\t\tif compression == 'gzip':\n\t\t\timport gzip\n\t\t\tbinary = gzip.GzipFile(fileobj=file, mode='rb')\n\t\telif compression == 'none':\n\t\t\tbinary = file\n"),
+    V('twin: reordered branches with the streams exchanged', 'B', _IO, _DET_OLD, "\t\tif compression == 'gzip':\n\t\t\tbinary = file\n\t\telif compression == 'none':\n\t\t\timport gzip\n\t\t\tbinary = gzip.GzipFile(fileobj=file, mode='rb')\n", 'F4'),
+    V('twin: gzip stream built before the rewind', 'B', _IO, "\t\tcompression = guess_compression(file)\n\t\tfile.seek(0)\n\n\t\tif compression == 'none':\n\t\t\tbinary = file\n\t\telif compression == 'gzip':\n\t\t\timport gzip\n\t\t\tbinary = gzip.GzipFile(fileobj=file, mode='rb')\n",
+      "\t\tcompression = guess_compression(file)\n\n\t\tif compression == 'none':\n\t\t\tbinary = file\n\t\t\tfile.seek(0)\n\t\telif compression == 'gzip':\n\t\t\timport gzip\n\t\t\tbinary = gzip.GzipFile(fileobj=file, mode='rb')\n", 'F4'),
+    V('E: dispatch of open_compressed as guard clauses in another order', 'E', _IO, _DISP_OLD,
+      "\tif compression == 'auto':\n\t\treturn _open_auto(path, mode, **kwargs)\n\n\tif compression == 'gzip':\n\t\timport gzip\n\t\treturn gzip.open(path, mode, **kwargs)\n\n\tif compression != 'none':\n\t\traise ValueError(f'Unknown compression type {compression!r}') from None\n\n\treturn open(path, mode, **kwargs)\n"),
+    V("twin: guard clauses that let 'auto' fall through to a plain open", 'B', _IO, _DISP_OLD,
+      "\tif compression == 'gzip':\n\t\timport gzip\n\t\treturn gzip.open(path, mode, **kwargs)\n\n\tif compression not in ('none', 'auto'):\n\t\traise ValueError(f'Unknown compression type {compression!r}') from None\n\n\treturn open(path, mode, **kwargs)\n", 'F4'),
+    V("twin: 'auto' guard clause sniffs a different path", 'B', _IO, _DISP_OLD,
+      "\tif compression == 'auto':\n\t\treturn _open_auto(path + '.gz', mode, **kwargs)\n\n\tif compression == 'gzip':\n\t\timport gzip\n\t\treturn gzip.open(path, mode, **kwargs)\n\n\tif compression != 'none':\n\t\traise ValueError(f'Unknown compression type {compression!r}') from None\n\n\treturn open(path, mode, **kwargs)\n", 'F4'),
+    # one conditional expression, the literal named by a module constant, the read inlined into the comparison
+    V('E: magic test as one conditional expression over a named constant', 'E', _IO, _GUESS_OLD, "\treturn 'gzip' if fobj.read(len(_GZIP_MAGIC)) == _GZIP_MAGIC else 'none'\n", also=[(_IO, _T, _T + "\n_GZIP_MAGIC = b'\\x1f\\x8b'\n")]),
+    V('twin: conditional expression with the results exchanged', 'B', _IO, _GUESS_OLD, "\treturn 'none' if fobj.read(len(_GZIP_MAGIC)) == _GZIP_MAGIC else 'gzip'\n", 'F4', also=[(_IO, _T, _T + "\n_GZIP_MAGIC = b'\\x1f\\x8b'\n")]),
+    V('twin: named constant with the wrong bytes', 'B', _IO, _GUESS_OLD, "\treturn 'gzip' if fobj.read(len(_GZIP_MAGIC)) == _GZIP_MAGIC else 'none'\n", 'F4', also=[(_IO, _T, _T + "\n_GZIP_MAGIC = b'\\x8b\\x1f'\n")]),
+    V('twin: one byte read but compared with the two magic bytes', 'B', _IO, _GUESS_OLD, "\treturn 'gzip' if fobj.read(1) == _GZIP_MAGIC else 'none'\n", 'F4', also=[(_IO, _T, _T + "\n_GZIP_MAGIC = b'\\x1f\\x8b'\n")]),
+    # an inlined temporary
+    V('E: parser call inlined into the iterator construction, handler spelled BaseException', 'E', _SQ, _PARSE_OLD, "\t\t\treturn ClosingIterator(SeqIO.parse(fobj, self.format), fobj)\n\n\t\texcept BaseException:\n"),
+    V('E: parser called with keyword arguments', 'E', _SQ, "records = SeqIO.parse(fobj, self.format)", "records = SeqIO.parse(format=self.format, handle=fobj)"),
+    V('twin: inlined parser call with a hard-coded format', 'B', _SQ, _PARSE_OLD, "\t\t\treturn ClosingIterator(SeqIO.parse(fobj, 'fasta'), fobj)\n\n\t\texcept BaseException:\n", 'F5'),
+    V('twin: iterator does not wrap the parsed records', 'B', _SQ, _PARSE_OLD, "\t\t\trecords = SeqIO.parse(fobj, self.format)\n\t\t\treturn ClosingIterator(iter(list(records)[1:]), fobj)\n\n\t\texcept BaseException:\n", 'F5'),
+    V('twin: parser set up outside the protected block (stream leaks on failure)', 'B', _SQ, "\t\ttry:\n\t\t\trecords = SeqIO.parse(fobj, self.format)\n", "\t\trecords = SeqIO.parse(fobj, self.format)\n\t\ttry:\n", 'F5'),
+    # named generator, result bound to a local inside the with and returned after it
+    V('E: named record generator, signature returned after the with block', 'E', _S, _FILE_OLD,
+      "\twith seqfile.parse() as records:\n\t\tseqs = (record.seq for record in records)\n\t\tsig = calc_signature(kspec, seqs, accumulator=accumulator)\n\n\treturn sig\n"),
+    V('E: records read into a list inside the with, searched after it', 'E', _S, _FILE_OLD,
+      "\twith seqfile.parse() as records:\n\t\tseqs = [record.seq for record in records]\n\n\treturn calc_signature(kspec, seqs, accumulator=accumulator)\n"),
+    V('twin: lazy generator consumed after the parse context closed the stream', 'B', _S, _FILE_OLD,
+      "\twith seqfile.parse() as records:\n\t\tseqs = (record.seq for record in records)\n\n\treturn calc_signature(kspec, seqs, accumulator=accumulator)\n", 'F1'),
+    V('twin: a record drawn from the stream before the named generator sees it', 'B', _S, _FILE_OLD,
+      "\twith seqfile.parse() as records:\n\t\tnext(records, None)\n\t\tseqs = (record.seq for record in records)\n\t\tsig = calc_signature(kspec, seqs, accumulator=accumulator)\n\n\treturn sig\n", 'F1'),
+    V('twin: named generator drained by a count before the search', 'B', _S, _FILE_OLD,
+      "\twith seqfile.parse() as records:\n\t\tseqs = (record.seq for record in records)\n\t\tn = sum(1 for _ in seqs)\n\t\tsig = calc_signature(kspec, seqs, accumulator=accumulator)\n\n\treturn sig\n", 'F1'),
+    V('twin: named generator that filters records', 'B', _S, _FILE_OLD,
+      "\twith seqfile.parse() as records:\n\t\tseqs = (record.seq for record in records if len(record.seq) > 1000)\n\t\tsig = calc_signature(kspec, seqs, accumulator=accumulator)\n\n\treturn sig\n", 'F1'),
 ]
